@@ -193,6 +193,32 @@ def resolve(F, ev, name, shape=None, ops=None, st=None):
     return res
 
 
+def resolve_seq(F, ev, items):
+    """the assembler's name resolution + encoding for a sequence of instructions [(name, operands)]:
+    -> list of dict(res, insns) over feasible paths, or None"""
+    entry = internal_entry(F)
+    if entry is None:
+        return None
+    ins = tuple(symex.struct("asm_parser::Instruction", "Instruction", (("name", ("lit", nm)), ("operands", ("array", tuple(ops))))) for nm, ops in items)
+    outs = ev.run_fn(entry, [("array", ins)])
+    if outs is None:
+        return None
+    res = []
+    for v, st in outs:
+        if not st.feasible or _contradictory(st.conds):
+            continue
+        kind = v[2] if isinstance(v, tuple) and len(v) > 2 and v[0] == "struct" and v[2] in ("Ok", "Err") else "?"
+        if (st.exit is not None and st.exit[0] == "panic") or any(e[0] == "call" and isinstance(e[1], str) and e[1].startswith("core::panicking") for e in st.effects):
+            kind = "panic"
+        insns = []
+        for e in st.effects:
+            if e[0] == "call" and isinstance(e[1], str) and e[1].endswith("Vec<T, A>::push"):
+                x = e[2][1]
+                insns.append({k: y for k, y in x[3]} if isinstance(x, tuple) and x and x[0] == "struct" and x[1].endswith("Insn") else {"?": x})
+        res.append({"res": kind, "insns": insns, "conds": list(st.conds)})
+    return res
+
+
 def expected_insns(itype, payload, base, shape):
     """reference: the Insn values `name <shape>` denotes (list of field dicts), or None when the shape is not accepted"""
     want = reference_encode(itype, tuple(shape))
